@@ -560,6 +560,7 @@ static Outcome run_c09(const Case &c) {
   if (bl == 0) o.cls("empty-body");
   if (bl > (1 << 20)) o.cls("body-above-1MiB");
   if (nchunks >= 2) o.cls("multi-chunk");
+  if (nchunks >= 257) o.cls("chunks>=257");
   for (auto &sx : x.cls) o.cls(sx);
   o.counters["recv_calls"] = ndata;
   X = nullptr;
@@ -583,11 +584,17 @@ static void gen_response_ops(Case &c, int tier, bool hostile) {
   int64_t bl = *rc::gen::weightedOneOf<int64_t>({{2, rc::gen::just<int64_t>(0)}, {5, range<int64_t>(1, 100)}, {3, range<int64_t>(100, 5000)},
                                                  {2, rc::gen::elementOf(std::vector<int64_t>{4094, 4095, 4096, 4097, 4098, 8192})}, {1, range<int64_t>(5000, maxbody)}});
   if (*range<int>(0, tier ? 40 : 90) == 0) bl = *range<int64_t>((1 << 20) - 10, (1 << 20) + 200000);  // above the 1 MiB wait cap
+  int nch = 0;
+  if (framing == 1) {
+    // chunk counts: mostly few; sometimes around the widths a per-chunk counter could have (2^8, 2^9) and beyond
+    nch = *rc::gen::weightedOneOf<int>({{4, rc::gen::just(1)}, {10, range<int>(2, 8)}, {2, range<int>(9, 30)}, {1, rc::gen::elementOf(std::vector<int>{127, 128, 129, 254, 255, 256, 257, 258, 300, 511, 512, 513, 700})}});
+    if (nch > 100 && bl < (int64_t)nch * 6) bl = (int64_t)nch * 6 + *range<int>(0, 50);
+  }
   c.push_back(Op("b", {bl, *rc::gen::arbitrary<int>()}));
   if (framing == 1) {
-    int nch = *rc::gen::weightedOneOf<int>({{2, rc::gen::just(1)}, {5, range<int>(2, 8)}, {1, range<int>(9, 30)}});
     for (int i = 0; i < nch; i++) {
-      int64_t sz = *rc::gen::weightedOneOf<int64_t>({{5, range<int64_t>(1, 20)}, {2, rc::gen::elementOf(std::vector<int64_t>{4094, 4095, 4096, 4097, 4098})}, {2, range<int64_t>(1, std::max<int64_t>(1, bl))},
+      int64_t sz = nch > 100 ? *range<int64_t>(1, 5)
+                             : *rc::gen::weightedOneOf<int64_t>({{5, range<int64_t>(1, 20)}, {2, rc::gen::elementOf(std::vector<int64_t>{4094, 4095, 4096, 4097, 4098})}, {2, range<int64_t>(1, std::max<int64_t>(1, bl))},
                                                      {1, rc::gen::just((int64_t)std::max<int64_t>(1, bl))}});
       c.push_back(Op("ch", {sz, *rc::gen::weightedElement<int>({{5, 0}, {1, 1}, {1, 2}, {1, 3}, {1, 4}}), *range<int>(0, 1), *rc::gen::weightedElement<int>({{5, 0}, {1, 1}, {1, 6}})}));
     }
